@@ -4,9 +4,10 @@
 \*   ACTS / PROCS / ATOMIC select the sub-system: ban machinery with two racing handshakes,
 \*   sequential full ban alphabet (clean-ups, successes, operator unban), blacklist + whitelist +
 \*   token bucket.
-\*   FIXED = {}  (code as it stands): INVS = ...OrKnown - a violation is excused only by a listed
-\*                deviation (unbanLive, unblLive, tempOverPerm); everything else is strict.
-\*   FIXED = {"unban","unbl","order"} (repaired design): INVS strict, plus NoDeviation.
+\*   FIXED = {}  (code before the C18 repairs): INVS = ...OrKnown - a violation is excused only by a
+\*                listed deviation (unbanLive, unblLive, tempOverPerm, expiredShadows); all else strict.
+\*   FIXED = {"unban","unbl","order"} (code with patches C18-1..3): BanHolds strict, BlacklistHoldsOrKnown.
+\*   FIXED = {"unban","unbl","order","shadow"} (repaired design): INVS strict, plus NoDeviation.
 CONSTANTS
   IPs = {"a"}
   Procs = @@PROCS@@
@@ -20,7 +21,7 @@ CONSTANTS
   MaxClock = @@MAXCLOCK@@
   MaxTotal = @@MAXTOTAL@@
   MaxPend = 2
-  MaxAdm = 4
+  MaxAdm = @@MAXADM@@
   Acts = @@ACTS@@
   Atomic = @@ATOMIC@@
   Fixed = @@FIXED@@
